@@ -516,11 +516,9 @@ func (t *thread) SetStack(data [][]byte) {
 
 // subScript returns the script since the last OP_CODESEPARATOR.
 func (t *thread) subScript() ParsedScript {
-	skip := 0
-	if t.lastCodeSep > 0 {
-		skip = t.lastCodeSep + 1 // +1 to skip the opcode separator itself
-	}
-	return t.scripts[t.scriptIdx][skip:]
+	// lastCodeSep holds the position just after the last executed OP_CODESEPARATOR
+	// (0 when none was executed), so that a separator at position 0 is honoured too.
+	return t.scripts[t.scriptIdx][t.lastCodeSep:]
 }
 
 // checkHashTypeEncoding returns whether the passed hashtype adheres to
